@@ -38,7 +38,7 @@ add("C04/enum/empty-member-name",
     "small safe fix: `len(member.Name) > 0 &&` before indexing")
 add("C04/enum/empty-enum",
     "OpenAPI `enum: []` (present but empty; JSON Schema rejects it, OpenAPI does not): ast.NewEnum with no values, then Values[0] in the Go/Java/PHP/Python/TypeScript formatters and in EnumType.MemberForValue",
-    r"frame=(internal/jennies/\w+\.\S*(format(EnumDef|Enum|EnumDeclaration)|defaultValueForObject|enumFromConstantReferences)\S*|internal/ast\.EnumType\.MemberForValue\S*) msg=runtime error: index out of range",
+    r"frame=(internal/jennies/\w+\.\S*([eE]num\w*|defaultValueFor\w+)\S*|internal/ast\.EnumType\.MemberForValue\S*) msg=runtime error: index out of range",
     "mutation `weird-enum` (enum: []) of testdata/openapi/refs, e.g. seed 1 mut/279",
     "small safe fix: error `enum with no values` in the OpenAPI walkEnum (as the JSON Schema front-end already does)")
 add("C04/yaml/enum-member-without-type",
@@ -74,9 +74,25 @@ add("C04/recursive-union/stack-overflow",
     r"frame=recursion:internal/ast/compiler\.\(\*DisjunctionOfConstantsToEnum\)",
     "Lean witness C04.wRecursiveUnion; mutation `ref=#/definitions/X` inside its own oneOf, e.g. seed 1 mut/75")
 add("C04/recursive-type/jenny-stack-overflow",
-    "recursive type reached through arrays / references in a jenny (`#A: [...#A]`, self-referencing definitions): python fromJSONForType, java formatArray, languages.Context.ResolveToComposableSlot recurse through references without a visited set",
-    r"outcome=(crash|timeout) frame=recursion:internal/(jennies/|languages\.)",
-    "mutation `cue-self-ref` of testdata/simplecue/defaults, e.g. seed 1 mut/3833")
+    "recursive type reached through arrays / references in a jenny (`#A: [...#A]`, self-referencing definitions): python fromJSONForType, java formatArray, languages.Context.ResolveToComposableSlot recurse through references without a visited set (stack overflow), the Go / PHP type templates expand it until memory runs out (runaway: watchdog timeout or `out of memory`)",
+    r"outcome=(crash|timeout) frame=((recursion|hang):internal/(jennies/|languages\.)\S*|\S*) msg=(fatal error: stack overflow|fatal error: out of memory|no result within the watchdog time).*(?<=frame=)?",
+    "./check C04 --replay corpus:corpus/cue-recursive-array   (`#A: [...#A]`)")
+add("C04/openapi/library-stack-overflow",
+    "OpenAPI schema that contains itself under anyOf/oneOf (`Array: {anyOf: [.., {$ref: Array}]}`) with validation on: kin-openapi's Schema.IsEmpty / validation recurses forever (third-party code, but the cog run dies with a Go stack overflow)",
+    r"outcome=crash frame=recursion:lib:github\.com/getkin/kin-openapi\S* msg=fatal error: stack overflow",
+    "./check C04 --replay corpus:corpus/openapi-self-anyof-validated")
+add("C04/openapi/loader-library-panic",
+    "malformed OpenAPI document on which kin-openapi's loader itself panics (nil dereference inside LoadFromFile, e.g. a component replaced by a scalar/array): not recovered by cog",
+    r"frame=internal/codegen\.\(\*OpenAPIInput\)\.loadSchema msg=runtime error",
+    "mutation `replace@<component>` of testdata/openapi/refs, e.g. seed 11 mut/17209")
+add("C04/jennies/default-on-non-struct-reference",
+    "default value on a field whose type is a reference that does not resolve to a struct (CUE `x: #A | *{...}` shapes): java formatReferenceDefaults / typescript defaultValueForStructs call AsStruct() unchecked",
+    r"frame=internal/ast\.Type\.AsStruct<-internal/jennies/\w+\.\S*([dD]efault\w*)",
+    "mutation of testdata/schemas/defaults (cue-rhs:{a: 1} | {b: 2}), e.g. seed 11 mut/29122")
+add("C04/cue/reference-resolver-selector",
+    "CUE reference whose package part is a selector expression: referenceResolver.PackageForNode asserts .(*ast.Ident)",
+    r"frame=internal/simplecue\.\(\*referenceResolver\)\.\w+ msg=interface conversion",
+    "byte mutation of testdata/simplecue/time, e.g. thorough seed 1 mut/155321")
 add("C04/python/intersection-not-implemented",
     "OpenAPI / JSON Schema `allOf` with the Python output: formatType panics explicitly `formatting intersection type is not implemented for python` (the repo's own testdata/openapi/intersections and external_refs trigger it)",
     r"frame=internal/jennies/python\.\(\*typeFormatter\)\.formatType msg=formatting intersection type is not implemented",
@@ -113,11 +129,11 @@ add("C04/yaml/as-type-nil-kind-pointer",
     "a type written in YAML (`as:`, `fields: [{type: …}]`, veneer arguments) whose `kind` has no matching payload (`{kind: struct}`, payload null, payload of another kind): the decoder accepts it, every later As*() / kind-pointer dereference panics",
     r"route=(config|passes-yaml|veneers-yaml) .*frame=internal/(ast|jennies|languages|veneers)\S* msg=runtime error: invalid memory address.*(asbad=true|pinned-config=(retype-object-nil-struct|retype-field-nil-array|add-object-empty-kind))",
     "./check C04 --replay corpus:corpus-config/retype-object-nil-struct")
-add("C04/yaml/hint-object-nil-map",
-    "`hint_object` on an object whose type was decoded from YAML (`retype_object` / `add_object`): Type.Hints is a nil map, the write panics",
-    r"frame=internal/ast/compiler\.\(\*HintObject\)\.processObject msg=assignment to entry in nil map",
-    "./check C04 --replay corpus:corpus-config/retype-then-hint",
-    "small safe fix: `if object.Type.Hints == nil { object.Type.Hints = ast.JenniesHints{} }`")
+add("C04/yaml/constant-to-enum-non-string",
+    "`constant_to_enum` on a string scalar whose constant is not a string (a type written in YAML with `scalar_kind: string, value: 1`; JSON Schema `{type: string, const: 1}`): processObject asserts Value.(string)",
+    r"frame=internal/ast/compiler\.\(\*ConstantToEnum\)\.processObject msg=interface conversion",
+    "./check C04 --replay corpus:corpus-config/constant-to-enum-non-string",
+    "small safe fix: comma-ok assertion, leave the object alone otherwise")
 add("C04/yaml/constraint-without-args",
     "scalar constraint written in YAML without `args` (`constraints: [{op: minLength}]`): WithTypeConstraints and the JSON Schema jenny index Args[0]",
     r"frame=(internal/ast\.FieldAssignment\.WithTypeConstraints\S*|internal/ast\.WithTypeConstraints\S*|internal/jennies/\w+\.\S*[cC]onstraint\S*) msg=runtime error: index out of range",
